@@ -23,10 +23,11 @@ from __future__ import annotations
 import ast
 from typing import Dict, List, Optional, Set, Tuple
 
+from vzstatic import cfg as cfgmod
 from vzstatic import flow
 from vzstatic.index import ClassInfo, FuncInfo, dotted
 from vzstatic.selftest import Variant
-from vzstatic.source import AnalysisError, loc, unparse
+from vzstatic.source import AnalysisError, ancestors, loc, unparse
 
 MANIFEST = {
     'technique': ('mutation-set vs dump/load coverage per designer class (assignments exact; '
@@ -144,6 +145,9 @@ def run(ctx) -> None:
   ctx.rule('R5', 'no in-place mutation of an object that (shallowly) aliases a constructor-derived field: '
            'load()/re-initialisation must start from the same template every time', 1)
   ctx.rule('R6', 'state serialised as JSON keeps the order of data-keyed mappings (no sort_keys where the loader iterates)', 4)
+  ctx.import_rules('C12', {'R6'}, 'R10', 'the hosted policy is rebuilt from the stored state on every request: no policy object is kept by the factory')
+  ctx.rule('R8', 'numpy generator state is dumped and restored whole', 2)
+  ctx.rule('R9', 'load() accepts every value dump() can write for monotone counters (no range check)', 1)
   ctx.rule('R7', "NumpyEncoder encodes the array itself ('value' is a shape-level method chain on the array, no filtering/merging)", 1)
   pf = ctx.index.need_class('vizier._src.service.policy_factory.DefaultPolicyFactory')
   call = pf.methods['__call__']
@@ -164,6 +168,9 @@ def run(ctx) -> None:
   r4_numpy_json(ctx)
   r6_json_order(ctx)
   r7_lossless_encoder(ctx)
+  r8_rng_state_whole(ctx)
+  for ci in designers:
+    r9_load_total(ctx, ci)
 
 
 # ----------------------------------------------------------------------- R1
@@ -552,6 +559,90 @@ def r3_policy(ctx) -> None:
 
 
 # ----------------------------------------------------------------------- R4
+# ----------------------------------------------------------------------- R8
+def r8_rng_state_whole(ctx) -> None:
+  """The numpy generator is saved and restored as its *whole* bit_generator.state: the dict also holds the buffered
+  32-bit half-word (has_uint32 / uinteger); dropping or re-defaulting any entry changes the stream after a restart."""
+  mod = ctx.index.need_module('vizier._src.algorithms.designers.eagle_strategy.serialization')
+  ser, res = mod.functions.get('serialize_rng'), mod.functions.get('restore_rng')
+  if ser is None or res is None:
+    raise AnalysisError('serialization.serialize_rng / restore_rng not found')
+
+  def resolve(fn, e, depth=0):
+    if isinstance(e, ast.Name) and depth < 4:
+      defs = [n.value for n in ast.walk(fn.node) if isinstance(n, ast.Assign) and any(isinstance(t, ast.Name) and t.id == e.id for t in n.targets)]
+      if len(defs) == 1:
+        return resolve(fn, defs[0], depth + 1)
+    return e
+  dumps = [c for c in flow.calls_in(ser.node) if (dotted(c.func) or '').endswith('json.dumps') and c.args]
+  if not dumps:
+    raise AnalysisError('serialize_rng: json.dumps not found')
+  arg = resolve(ser, dumps[0].args[0])
+  whole = isinstance(arg, ast.Attribute) and (dotted(arg) or '').endswith('.bit_generator.state')
+  ctx.check(whole, 'R8', 'serialize_rng dumps the whole generator state', dumps[0],
+            'json.dumps(rng.bit_generator.state)',
+            f'serialize_rng dumps `{unparse(arg, 70)}` instead of the complete bit_generator.state: entries that are left out '
+            '(e.g. the buffered 32-bit half-word has_uint32/uinteger of PCG64) are reset on restore, so the restored stream '
+            'diverges from the live one after an odd number of 32-bit draws', construct='rng-dump-partial', func=ser.qualname)
+  stores = [n for n in ast.walk(res.node) if isinstance(n, ast.Assign) and any((dotted(t) or '').endswith('.bit_generator.state') for t in n.targets)]
+  if not stores:
+    raise AnalysisError('restore_rng: assignment to bit_generator.state not found')
+  val = resolve(res, stores[0].value)
+  direct = isinstance(val, ast.Call) and (dotted(val.func) or '').endswith('json.loads')
+  ctx.check(direct, 'R8', 'restore_rng installs the loaded state as it is', stores[0],
+            'rng.bit_generator.state = json.loads(obj)',
+            f'restore_rng installs `{unparse(val, 70)}`: the loaded state is merged with / filtered against the state of a fresh generator, '
+            'so entries missing from the dump silently keep fresh-generator values', construct='rng-restore-merged', func=res.qualname)
+
+
+# ----------------------------------------------------------------------- R9
+def r9_load_total(ctx, ci: ClassInfo) -> None:
+  """load() accepts every state dump() can write.  Counters that suggest()/update() only ever increase (and reduce on use)
+  are dumped unbounded, so a range check on the restored value rejects states of a long-running study; the policy then
+  silently starts a fresh designer."""
+  load = ctx.index.find_method(ci, 'load')
+  if load is None:
+    return
+  owner = load.cls
+  counters = set()
+  for c in ctx.index.mro(ci):
+    for m in c.methods.values():
+      if m.name in ('load', '__init__'):
+        continue
+      for x in ast.walk(m.node):
+        if isinstance(x, ast.AugAssign) and isinstance(x.op, ast.Add):
+          d = dotted(x.target) or ''
+          if d.startswith('self.') and d.count('.') == 1:
+            counters.add(d[5:])
+  if not counters:
+    return
+  g = cfgmod.CFG(load.node)
+  prov = flow.Provenance(g, on_call=lambda c: 'args', on_attr=lambda a: 'stop')
+  # locals that end up in a counter field
+  feeds = set()
+  for x in ast.walk(load.node):
+    if isinstance(x, ast.Assign):
+      for t in x.targets:
+        d = dotted(t) or ''
+        if d.startswith('self.') and d[5:] in counters:
+          feeds |= flow.names_in(x.value)
+  bad = []
+  for n in g.nodes:
+    if n.kind == 'stmt' and isinstance(n.ast, ast.Raise):
+      if any(isinstance(a, ast.ExceptHandler) for a in ancestors(n.ast)):
+        continue
+      for cond, pol in g.controlling_conditions(n):
+        for cmp_ in ast.walk(cond):
+          if isinstance(cmp_, ast.Compare) and any(isinstance(op, (ast.Lt, ast.LtE, ast.Gt, ast.GtE)) for op in cmp_.ops) \
+              and (flow.names_in(cmp_) & feeds):
+            bad.append((n, cmp_))
+  ctx.check(not bad, 'R9', f'{ci.name}.load accepts every dumped counter value ({sorted(counters)})', bad[0][0].ast if bad else load.node,
+            'no range check on a restored counter',
+            f'load() raises when `{unparse(bad[0][1], 60) if bad else ""}`: but dump() writes the counter as it is, and suggest()/update() '
+            'only ever increase it - a study that ran past that bound can no longer be restored and silently restarts from scratch',
+            construct=f'{ci.name}.load:range-check', func=load.qualname)
+
+
 _LOSSLESS_ARRAY_METHODS = {'tolist', 'ravel', 'flatten', 'reshape', 'copy', 'item'}
 _LOSSY_CALLS = {'where', 'nan_to_num', 'clip', 'round', 'around', 'rint', 'astype', 'floor', 'ceil', 'trunc',
                 'minimum', 'maximum', 'isfinite', 'isnan', 'isinf', 'masked_invalid', 'fix'}
